@@ -1231,7 +1231,7 @@ V(id='c37-benign-both-reordered', prop='C37', file='mpmath/libmp/libmpf.py',
 
 # ---------------------------------------------------------------- C35 -------
 V(id='c35-maxcoeff-nonstrict', prop='C35', file='mpmath/identification.py',
-  old="                if max(abs(v) for v in vec) < maxcoeff:", new="                if max(abs(v) for v in vec) <= maxcoeff:",
+  old="                if max(abs(v) for v in vec) < maxcoeff and", new="                if max(abs(v) for v in vec) <= maxcoeff and",
   expect='fire:Q-R1:pslq')
 V(id='c35-row-instead-of-column', prop='C35', file='mpmath/identification.py',
   old="                vec = [int(round_fixed(B[j,i], prec) >> prec) for j in \\\n                range(1,n+1)]",
@@ -1249,7 +1249,7 @@ V(id='c35-tol-scaled-before-extra', prop='C35', file='mpmath/identification.py',
          ("    tol = ctx.to_fixed(tol, prec)\n    assert tol\n", "    assert tol\n")],
   expect='fire:Q-R2:pslq')
 V(id='c35-findpoly-degree-plus-one', prop='C35', file='mpmath/identification.py',
-  old="    for i in range(1,n+1):\n        xs.append(x**i)", new="    for i in range(1,n+2):\n        xs.append(x**i)",
+  old="    for i in range(1,n+1):\n        # (with the guard bits", new="    for i in range(1,n+2):\n        # (with the guard bits",
   expect='fire:Q-R3:findpoly')
 V(id='c35-findpoly-own-maxcoeff', prop='C35', file='mpmath/identification.py',
   old="        a = ctx.pslq(xs, **kwargs)", new="        a = ctx.pslq(xs, kwargs.get('tol'), 10**6)",
@@ -1259,13 +1259,14 @@ V(id='c35-identify-leading-zero-allowed', prop='C35', file='mpmath/identificatio
   new="            if r is not None and max(abs(uw) for uw in r) <= M \\\n                and any(r[1:]):",
   expect='fire:Q-R4:identify')
 V(id='c35-identify-product-ungated', prop='C35', file='mpmath/identification.py',
-  old="        if r is not None and max(abs(uw) for uw in r) <= M and r[0]:\n            addsolution(prodstring(r, logs))",
-  new="        if r is not None and r[0]:\n            addsolution(prodstring(r, logs))",
+  old="        if r is not None and max(abs(uw) for uw in r) <= M and r[0]:\n            if addsolution(prodstring(r, logs))",
+  new="        if r is not None and r[0]:\n            if addsolution(prodstring(r, logs))",
   expect='fire:Q-R4:identify')
 V(id='c35-benign-rename-vec', prop='C35', file='mpmath/identification.py',
   edits=[("                vec = [int(round_fixed(B[j,i], prec) >> prec) for j in \\\n                range(1,n+1)]",
           "                rel = [int(round_fixed(B[j,i], prec) >> prec) for j in \\\n                range(1,n+1)]"),
-         ("                if max(abs(v) for v in vec) < maxcoeff:", "                if max(abs(v) for v in rel) < maxcoeff:"),
+         ("                if max(abs(v) for v in vec) < maxcoeff and", "                if max(abs(v) for v in rel) < maxcoeff and"),
+         ("zip(vec, x[1:])", "zip(rel, x[1:])"),
          ("                    return vec", "                    return rel")],
   expect='silent')
 
@@ -2437,3 +2438,56 @@ V(id='c33-invlap-shared-rule-object', prop='C33', file='mpmath/calculus/inversel
 V(id='c33-invlap-shared-default-rule', prop='C33', file='mpmath/calculus/inverselaplace.py',
   old="                rule = deHoog(ctx)\n", new="                rule = ctx._de_hoog\n",
   expect='fire:D-R9:invertlaplace')
+
+# ---- C35 second hunt: Q-R9..Q-R13 (fixes 9b1c656, 171b123, 822a8af, 3affd12, 6fd511d) ----
+V(id='c35-pslq-no-recheck', prop='C35', file='mpmath/identification.py',
+  old="                if max(abs(v) for v in vec) < maxcoeff and \\\n                    abs(sum(v*xk for (v, xk) in zip(vec, x[1:]))) <= \\\n                        ((tol*xnorm) >> prec):\n",
+  new="                if max(abs(v) for v in vec) < maxcoeff:\n",
+  expect='fire:Q-R9:pslq')
+V(id='c35-pslq-recheck-on-y', prop='C35', file='mpmath/identification.py',
+  old="zip(vec, x[1:]))) <= \\\n", new="zip(vec, y[1:]))) <= \\\n",
+  expect='fire:Q-R9:pslq')
+V(id='c35-pslq-recheck-without-norm', prop='C35', file='mpmath/identification.py',
+  old="                        ((tol*xnorm) >> prec):\n", new="                        tol:\n",
+  expect='fire:Q-R9:pslq')
+V(id='c35-pslq-recheck-norm-after-normalisation', prop='C35', file='mpmath/identification.py',
+  old="    t = xnorm = s[1]\n", new="    t = s[1]\n    xnorm = 1 << prec\n",
+  expect='fire:Q-R9:pslq')
+V(id='c35-pslq-y-aliases-x', prop='C35', file='mpmath/identification.py',
+  old="    y = x[:]\n", new="    y = x\n",
+  expect='fire:Q-R9:pslq')
+V(id='c35-benign-pslq-recheck-strict', prop='C35', file='mpmath/identification.py',
+  old="zip(vec, x[1:]))) <= \\\n", new="zip(vec, x[1:]))) < \\\n",
+  expect='silent')
+V(id='c35-pslq-unscaled-input', prop='C35', file='mpmath/identification.py',
+  old="    if scale:\n        x = [ctx.ldexp(xk, -max(scale)) for xk in x]\n", new="",
+  expect='fire:Q-R10:pslq')
+V(id='c35-pslq-raw-small-entry-guard', prop='C35', file='mpmath/identification.py',
+  old="    if (minx << prec) // xnorm < tol//100:\n", new="    if minx < tol//100:\n",
+  expect='fire:Q-R10:pslq')
+V(id='c35-identify-unverified-formula', prop='C35', file='mpmath/identification.py',
+  old="            if not abs(v - x) <= 100*tol*max(1, abs(x)):\n                return False\n", new="            pass\n",
+  expect='fire:Q-R11:identify')
+V(id='c35-identify-zero-division-accepted', prop='C35', file='mpmath/identification.py',
+  old="        except (ArithmeticError, ValueError):\n            return False\n        except (NameError, SyntaxError, TypeError):\n",
+  new="        except (ArithmeticError, ValueError, NameError, SyntaxError, TypeError):\n",
+  expect='fire:Q-R11:identify')
+V(id='c35-identify-return-unconditional', prop='C35', file='mpmath/identification.py',
+  old="                if addsolution(s) and not full:\n                    return solutions[0]\n",
+  new="                addsolution(s)\n                if not full:\n                    return solutions[0]\n",
+  expect='fire:Q-R11:identify')
+V(id='c35-identify-python-int-literals', prop='C35', file='mpmath/identification.py',
+  old="            v = eval(_int_literals.sub(r'mpf(\\1)', s), names)\n", new="            v = eval(s, names)\n",
+  expect='fire:Q-R11:identify')
+V(id='c35-findpoly-rounded-powers', prop='C35', file='mpmath/identification.py',
+  old="            ctx.prec = orig + 60\n            xs.append(x**i)\n", new="            xs.append(x**i)\n",
+  expect='fire:Q-R12:findpoly')
+V(id='c35-findpoly-few-guard-bits', prop='C35', file='mpmath/identification.py',
+  old="            ctx.prec = orig + 60\n            xs.append(x**i)\n", new="            ctx.prec = orig + 5\n            xs.append(x**i)\n",
+  expect='fire:Q-R12:findpoly')
+V(id='c35-pslq-rounds-entries', prop='C35', file='mpmath/identification.py',
+  old="    x = [ctx.convert(xk) for xk in x]\n", new="    x = [ctx.mpf(xk) for xk in x]\n",
+  expect='fire:Q-R12:pslq')
+V(id='c35-prodstring-falls-off', prop='C35', file='mpmath/identification.py',
+  old="    if den: return \"1/(%s)\" % den\n    return '1'\n", new="    if den: return \"1/(%s)\" % den\n",
+  expect='fire:Q-R13:prodstring')
